@@ -41,6 +41,9 @@ pub enum LockOp {
 	/// the in-process holder takes a tree reader (a client object that keeps the database's
 	/// internals alive) and keeps it beyond the drop of its handle
 	KeepReader(u8),
+	/// the tree readers kept so far are dropped now (possibly long after their handle, while
+	/// another actor holds the directory)
+	DropReaders,
 }
 
 #[derive(Clone, Debug, Serialize, Deserialize)]
@@ -340,6 +343,15 @@ pub fn run_case(case: &LockCase, dir: &Path) -> CaseResult {
 					}
 				}
 			},
+			LockOp::DropReaders => {
+				if !kept_readers.is_empty() {
+					kept_readers.clear();
+					out.label("kept-tree-readers-dropped");
+					if holder.is_some() {
+						out.label("kept-tree-readers-dropped-while-another-handle-is-live");
+					}
+				}
+			},
 			LockOp::Write(k) => {
 				if let Some(h) = holder.filter(|h| mode_of(*h) != 2) {
 					if let Some(Held::Local(db)) = &held[h] {
@@ -442,6 +454,7 @@ fn lock_case() -> impl Strategy<Value = LockCase> {
 			2 => any::<u16>().prop_map(LockOp::Write),
 			1 => (0u8..4).prop_map(LockOp::DropRacing),
 			1 => (0u8..4).prop_map(LockOp::KeepReader),
+			1 => Just(LockOp::DropReaders),
 		];
 		proptest::collection::vec(op, 2..14).prop_map(move |ops| LockCase { actors: actors.clone(), ops, race, with_pending_logs, modes: modes[..actors.len()].to_vec() })
 	})
